@@ -69,6 +69,8 @@ def _is_template_base(idx, ci, call):
     subs = [q for q in idx.subclasses(ci.qualname, strict=True) if q.split('.')[-1] in REVIEWED]
     if not subs:
         return False
+    if ci.name.startswith('_') and all(idx.lookup(idx.classes[q], '__call__') is call for q in subs):
+        return True          # a private base whose __call__ all reviewed schedules inherit: analysed through each of them
     for n in ast.walk(call.node):
         if isinstance(n, ast.Call) and isinstance(n.func, ast.Attribute) and isinstance(n.func.value, ast.Name) \
                 and n.func.value.id == call.params[0] and idx.lookup(ci, n.func.attr) is None:
@@ -112,6 +114,21 @@ def _expand_self_calls(idx, ci, paths, depth=3):
     return paths
 
 
+NUMERIC_HEADS = {'num', 'cfg', 'param', 'add', 'sub', 'mul', 'div', 'pow', 'neg'}
+
+
+def _fold_none(c):
+    """Decide `x is None` / `x is not None` when x is None itself or an arithmetic expression (never None)."""
+    if c[0] == 'cmp' and c[1] in ('is', 'isnot') and ('none',) in (c[2], c[3]):
+        other = c[3] if c[2] == ('none',) else c[2]
+        inner = ai.strip_wrappers(other)
+        if other == ('none',):
+            return ('bool', c[1] == 'is')
+        if inner[0] in NUMERIC_HEADS and not (inner[0] == 'param'):
+            return ('bool', c[1] != 'is')
+    return c
+
+
 def _split_conditionals(paths, limit=64):
     """`return a if c else b` is two pieces: split returning paths on conditional expressions in their value."""
     from ._c12_matrix import rewrite
@@ -119,14 +136,19 @@ def _split_conditionals(paths, limit=64):
     for _ in range(limit):
         nxt, changed = [], False
         for p in out:
-            ife = next((s_ for s_ in ai.subterms(p.value) if s_[0] == 'ifexp'), None) if p.kind == 'ret' else None
+            ifes = [s_ for s_ in ai.subterms(p.value) if s_[0] == 'ifexp'] if p.kind == 'ret' else []
+            # innermost first: a condition that itself contains no conditional expression
+            ife = next((s_ for s_ in ifes if not any(x[0] == 'ifexp' for x in ai.subterms(s_[1]))), None)
             if ife is None:
                 nxt.append(p)
                 continue
             changed = True
             for cond, branch in ((ife[1], ife[2]), (ai.t_not(ife[1]), ife[3])):
-                q = ai.SPath(list(p.guards) + [(cond, None)], 'ret', rewrite(p.value, {ife: branch}), None, p.stmt, p.store, p.env,
-                             p.effects, p.closures)
+                cond = _fold_none(cond)
+                if cond == ('bool', False):
+                    continue
+                q = ai.SPath(list(p.guards) + ([] if cond == ('bool', True) else [(cond, None)]), 'ret',
+                             rewrite(p.value, {ife: branch}), None, p.stmt, p.store, p.env, p.effects, p.closures)
                 nxt.append(q)
         out = nxt
         if not changed:
@@ -192,7 +214,7 @@ class Schedule(object):
                     self.witness.setdefault('first', (asg, 's(1) = %s' % _fmt(val)))
                 if not (0 <= val <= 1):
                     self.witness.setdefault('range', (asg, 's(%d) = %s lies outside [0, 1]' % (n, _fmt(val))))
-                if self.min_key and val < round(Fraction(asg[self.min_key]), 4):
+                if self.min_key and self.min_key in asg and val < round(Fraction(asg[self.min_key]), 4):
                     self.witness.setdefault('min', (asg, 's(%d) = %s is below %s = %s' % (n, _fmt(val), self.min_key,
                                                                                          _fmt(asg[self.min_key]))))
                 if prev is not None and val > prev:
@@ -902,7 +924,7 @@ def _marks(p, init_env, init_store, pX):
     return out
 
 
-def _entry_body(r, idx, fi, stmts, X, kind, credits, where, env=None, returns_flag=False, owner=None, store=None):
+def _entry_body(r, idx, fi, stmts, X, kind, credits, where, env=None, returns_flag=False, owner=None, store=None, trusted=True):
     """Check the per-entry work (statements `stmts` acting on entry X): exactly the entries with grade > 0 are scaled.
     Returns the set of local names that record 'an entry changed'."""
     pX = ('param', X)
@@ -948,9 +970,12 @@ def _entry_body(r, idx, fi, stmts, X, kind, credits, where, env=None, returns_fl
                 pass        # the complement of a `>= 0` guard: reported on the other path
             continue
         if not gconds:
-            if touched:
+            if touched and trusted:
                 r.violation(construct + ': guard', 'the entry is modified without testing grade_decimal > 0: zero grades count as changed', where,
                             expected='if grade_decimal > 0')
+            elif touched:
+                r.undecided(construct + ': guard', 'no test of grade_decimal found here; the entries come from an iterable that was not understood '
+                            '(it may already select the positive grades)', where)
             continue
         if not (pos or nonpos):
             r.undecided(construct + ': guard', 'grade condition `%s` not recognised' % ai.show(gconds[0]), where)
@@ -1008,6 +1033,49 @@ def _entry_body(r, idx, fi, stmts, X, kind, credits, where, env=None, returns_fl
     if not seen_pos:
         r.undecided(construct + ': guard', 'no path for entries with a positive grade was recognised', where)
     return flags or set()
+
+
+def _desugar_generator_loop(idx, fi, loop):
+    """`for x in self._gen(args): BODY` where _gen is a generator method of the shape
+    `<assignments>; for e in ITER: [if COND:] yield e`  ==  `for x in ITER': [if COND':] BODY`.
+    Returns (iterable expression, body statements); the loop's own when it is not of that shape."""
+    it = loop.iter
+    if not (isinstance(it, ast.Call) and isinstance(it.func, ast.Attribute) and isinstance(it.func.value, ast.Name)
+            and not it.keywords and isinstance(loop.target, ast.Name) and fi.cls is not None):
+        return loop.iter, loop.body
+    callee = idx.lookup(fi.cls, it.func.attr)
+    if callee is None or not any(isinstance(n, (ast.Yield, ast.YieldFrom)) for n in ast.walk(callee.node)):
+        return loop.iter, loop.body
+    params = callee.params if callee.is_static else callee.params[1:]
+    if len(params) != len(it.args) or callee.node.args.vararg or callee.node.args.kwarg:
+        return loop.iter, loop.body
+    env = dict(zip(params, it.args))
+    if not callee.is_static and callee.params:
+        env[callee.params[0]] = it.func.value
+    stmts = [s_ for s_ in callee.node.body if not (isinstance(s_, ast.Expr) and isinstance(s_.value, ast.Constant))]
+    inner = None
+    for k, st in enumerate(stmts):
+        if isinstance(st, ast.Assign) and len(st.targets) == 1 and isinstance(st.targets[0], ast.Name):
+            env[st.targets[0].id] = nf.subst(st.value, env)
+            continue
+        if isinstance(st, ast.For) and k == len(stmts) - 1 and not st.orelse and isinstance(st.target, ast.Name):
+            inner = st
+            break
+        return loop.iter, loop.body
+    if inner is None:
+        return loop.iter, loop.body
+
+    def is_yield_of_target(b):
+        return len(b) == 1 and isinstance(b[0], ast.Expr) and isinstance(b[0].value, ast.Yield) and \
+            isinstance(b[0].value.value, ast.Name) and b[0].value.value.id == inner.target.id
+    env_x = dict(env)
+    env_x[inner.target.id] = ast.Name(id=loop.target.id, ctx=ast.Load())
+    if is_yield_of_target(inner.body):
+        return nf.subst(inner.iter, env), loop.body
+    if len(inner.body) == 1 and isinstance(inner.body[0], ast.If) and not inner.body[0].orelse and is_yield_of_target(inner.body[0].body):
+        test = nf.subst(inner.body[0].test, env_x)
+        return nf.subst(inner.iter, env), [ast.If(test=test, body=list(loop.body), orelse=[])]
+    return loop.iter, loop.body
 
 
 def _iterable_kinds(r, tb, fi, iter_node, pR, in_list, anchor, where):
@@ -1093,7 +1161,8 @@ def d2_scale(ctx, idx, fi, R, N):
                 continue
             X = loop.target.id
             n_sites += 1
-            kinds = _iterable_kinds(r, tb, fi, loop.iter, pR, in_list, loop, where)
+            loop_iter, loop_body = _desugar_generator_loop(idx, fi, loop)
+            kinds = _iterable_kinds(r, tb, fi, loop_iter, pR, in_list, loop, where)
             site_nodes |= {id(x) for b in loop.body for x in ast.walk(b)}
             exits = [x for x in lib.loop_has_early_exit(loop) if not isinstance(x, ast.Continue)]
             if exits:
@@ -1105,7 +1174,8 @@ def d2_scale(ctx, idx, fi, R, N):
             site_nodes |= {id(x) for b in loop.body for x in ast.walk(b)}
             e0, s0 = at(loop)
             e0 = {k: v for k, v in e0.items() if k != X}
-            flags |= _entry_body(r, idx, fi, loop.body, X, '/'.join(kinds) or 'list', credits, where, env=e0, store=s0)
+            flags |= _entry_body(r, idx, fi, loop_body, X, '/'.join(kinds) or 'list', credits, where, env=e0, store=s0,
+                                 trusted=bool(kinds))
         # --- comprehensions that apply a per-entry helper of the class: [self._helper(entry, credit) for entry in entries]
         for comp in [n for n in walk_own(fi.node) if isinstance(n, (ast.ListComp, ast.GeneratorExp, ast.SetComp))]:
             if len(comp.generators) != 1 or comp.generators[0].ifs or not isinstance(comp.generators[0].target, ast.Name):
@@ -1269,6 +1339,12 @@ def d2_note(ctx, idx, fi, R, N):
         okseen = set()
         for p in live:
             fkeyterm = getattr(fi, '_c17_flag_keys', {}).get(flag) if flag is not None else None
+            if fkeyterm is not None and fkeyterm not in p.store:
+                # the same field of the same kind of object on this path (the object term differs with the path's values)
+                same = [k for k in p.store if k[0] == 'attr' and k[2] == fkeyterm[2] and k[1][0] == fkeyterm[1][0]
+                        and (k[1][0] != 'call' or k[1][1] == fkeyterm[1][1])]
+                if len(same) == 1:
+                    fkeyterm = same[0]
             ft = flag_atom if flag is None else (p.store.get(fkeyterm, fkeyterm) if fkeyterm is not None else p.env.get(flag, ('param', flag)))
             if flag is None:
                 fvals, fkey = [False, True], flag_atom
@@ -1612,6 +1688,7 @@ MUTANTS = [
 ]
 
 BENIGN = [
+    Benign('linear-cases-as-lambda-rows-read-by-next', CREDIT, '        if steps >= decrease_steps:\n            credit = min_cred\n        else:\n            # Linear interpolation\n            credit = 1 + (min_cred - 1) * steps / decrease_steps\n', '        cases = (\n            (lambda: steps >= decrease_steps, lambda: min_cred),\n            (lambda: True, lambda: 1 + (min_cred - 1) * steps / decrease_steps),\n        )\n        credit = next(compute for applies, compute in cases if applies())()\n'),
     Benign('credit-cap-object-full-test-on-the-credit', BASE, _CAP_OK, None),
     Benign('per-entry-helper-and-any-in-the-condition', BASE, _TAIL_OLD, _TAIL_HELPER_AND_ANY),
     Benign('unit-interval-validator-as-module-constant', CREDIT, [
